@@ -15,8 +15,10 @@ Decides from the source:
   T6  make_center_priors is dimensionally consistent: pixels * spacing + origin
       (weight typing, E1-L);
   T7  subimage crops by index slices of x and y around the rounded centre.
-Not decided: centre-finder accuracy, detrend's plane removal (SciPy),
-interpolate_na neighbour means (xarray), retained coordinates of isel.
+  T5b detrend applies SciPy's linear detrend along the axes *named* x and y, the
+      second on the result of the first (what SciPy's detrend removes is trusted).
+Not decided: centre-finder accuracy, interpolate_na neighbour means (xarray),
+retained coordinates of isel.
 """
 import ast
 from fractions import Fraction as F
@@ -43,10 +45,12 @@ META = dict(
               'of make_center_priors, Welford recurrence check',
     level_text='Static: T1-T7 decide the defining identities that are visible in the '
                'expression each tool computes (for all images).  Library-dependent '
-               'behaviour (SciPy detrend, xarray interpolation, Hough accuracy) is '
-               'not decided.',
+               'behaviour (xarray interpolation, Hough accuracy) is not decided; '
+               'detrend is decided up to what scipy.signal.detrend removes.',
     level_note='Trusted: xarray arithmetic is elementwise; .sum()/.size are over all '
-               'elements; interpolate_na(dim) fills NaNs along that dimension only.',
+               'elements; interpolate_na(dim) fills NaNs along that dimension only; '
+               'scipy.signal.detrend(data, axis) subtracts the least-squares line '
+               'along that axis.',
 )
 
 IP = 'holopy.core.process.img_proc.'
@@ -71,6 +75,7 @@ def run(check, prog):
     subimage(check, prog)
     subimage_shapes(check, prog)
     bg_correct_guards(check, prog)
+    detrend_axes(check, prog)
 
 
 def returns(check, prog):
@@ -104,6 +109,54 @@ def returns(check, prog):
                       'returns copy_metadata(%s, result)' % arg, loc,
                       fail_detail='%s returns %s' % (name, [show(o.value)[:100]
                                                            for o in rets]))
+
+
+def detrend_axes(check, prog):
+    """T5: detrend removes a plane a + b x + c y because SciPy's linear detrend is
+    applied to the image along the axis *named* x and then to the result along
+    the axis named y (trusted: scipy.signal.detrend(data, axis) subtracts the
+    least-squares line along `axis`; a plane is a line along x for every y).  The
+    structural part decided here: both applications are of scipy.signal.detrend
+    with the default (linear, no break points) type, the first on the image, the
+    second on the first result, and the two axes are the positions of 'x' and 'y'
+    in image.dims -- not fixed numbers, which are wrong for (z, x, y) images."""
+    q = IP + 'detrend'
+    fd = prog.func(q)
+    loc = prog.loc(q, fd)
+    image = sym(fd.args.args[0].arg)
+    it = Interp(prog, max_depth=1, opaque=[MD + 'copy_metadata'])
+    res = it.analyze(q)
+    v = res.ret
+    inner = v[2][1] if v[0] == 'call' and v[1] == MD + 'copy_metadata' and \
+        len(v[2]) >= 2 else v
+
+    def app(t):
+        """(data, axis) of one application of scipy.signal.detrend, else None"""
+        if t[0] != 'call' or t[1] != 'scipy.signal.detrend':
+            return None
+        kws = dict(t[3])
+        if kws.get('type', ('const', 'linear')) not in (('const', 'linear'),
+                                                        ('const', 'l')):
+            return None
+        if kws.get('bp', ('num', 0)) not in (('num', 0), num(0)):
+            return None
+        data = t[2][0] if t[2] else kws.get('data')
+        axis = t[2][1] if len(t[2]) > 1 else kws.get('axis')
+        return data, axis
+
+    def pos(name):
+        return intern(('call', ('attr', ('attr', image, 'dims'), 'index'),
+                       (('const', name),), ()))
+    outer = app(inner)
+    first = app(outer[0]) if outer else None
+    ok = outer is not None and first is not None and first[0] == image and \
+        {first[1], outer[1]} == {pos('x'), pos('y')}
+    check.require(ok, 'T5-detrend-axes', 'detrend',
+                  'scipy.signal.detrend (linear) along image.dims.index(\'x\') and '
+                  'along image.dims.index(\'y\'), the second on the result of the '
+                  'first', loc,
+                  fail_detail='detrend computes %s: a plane added to the image is not '
+                  'removed along both named axes' % show(inner)[:200])
 
 
 def normalize(check, prog, canon):
